@@ -97,7 +97,16 @@ func (w *World) closureOf(f *types.Func) *ssa.Function {
 		for _, b := range fn.Blocks {
 			if ret, ok := normalReturn(b); ok {
 				if mc, ok := retVal(ret, 0).(*ssa.MakeClosure); ok {
-					return mc.Fn.(*ssa.Function)
+					cf := mc.Fn.(*ssa.Function)
+					// a method value (x.evaluate): the method itself
+					if strings.HasPrefix(cf.Synthetic, "bound method wrapper") {
+						if obj, ok := cf.Object().(*types.Func); ok {
+							if m := w.Prog.FuncValue(obj); m != nil {
+								return m
+							}
+						}
+					}
+					return cf
 				}
 				if cf, ok := retVal(ret, 0).(*ssa.Function); ok {
 					return cf
@@ -299,7 +308,7 @@ func ruleBPrim(w *World, r *Report) {
 				probs = append(probs, "does not negate a boolean / test a node-set for emptiness")
 			}
 		case "name", "local-name", "namespace-uri":
-			if !w.emptySetGivesEmptyString(cl) {
+			if !w.emptySetGivesEmptyString(cl) && !w.emptySetByInterp(name) {
 				probs = append(probs, "an empty node-set argument does not yield the empty string")
 			}
 		case "substring-before", "substring-after":
@@ -575,6 +584,22 @@ func (w *World) checkNumberConversion(r *Report, number string) {
 		case *ssa.Call:
 			if f := x.Call.StaticCallee(); f != nil && f.String() == "math.NaN" {
 				continue
+			}
+			// a helper that yields only constants (a boolean's 1/0)
+			if f := x.Call.StaticCallee(); f != nil && w.inPkg(f) && len(f.Blocks) > 0 {
+				consts := true
+				for _, hb := range f.Blocks {
+					if hr, ok := normalReturn(hb); ok {
+						for _, rv := range hr.Results {
+							if _, isC := strip(rv).(*ssa.Const); !isC {
+								consts = false
+							}
+						}
+					}
+				}
+				if consts && hasPanic(f) == nil {
+					continue
+				}
 			}
 			okAll, why = false, "returns "+x.String()
 		case *ssa.Extract:
@@ -1198,4 +1223,73 @@ func (w *World) beforeAfterByInterp() bool {
 		return n > 0
 	}
 	return judge("substring-after", true) && judge("substring-before", false)
+}
+
+// emptySetByInterp: the implementation bound to a name function, built with
+// one argument and followed with that argument selecting nothing, returns the
+// empty string on every path.
+func (w *World) emptySetByInterp(name string) bool {
+	fb, _, err := w.functionBuilds()
+	if err != nil {
+		return false
+	}
+	sel := w.selectMethod()
+	var hooks AHooks
+	hooks.Call = func(ai *AInterp, st *AState, site ssa.CallInstruction, callee *ssa.Function, args []AVal) (bool, AVal) {
+		com := site.Common()
+		if com.IsInvoke() && len(args) > 0 && strings.HasPrefix(args[0].Tag, "q:") {
+			if com.Method.Name() == sel {
+				return true, AVal{Kind: avNil} // the argument selects nothing
+			}
+			if w.isQueryType(com.Value.Type()) && com.Signature().Results().Len() == 1 && w.isQueryType(com.Signature().Results().At(0).Type()) {
+				return true, args[0] // Clone() and the like
+			}
+		}
+		if callee != nil && w.inPkg(callee) && callee.Signature.Recv() == nil && len(args) == 1 && strings.HasPrefix(args[0].Tag, "q:") && callee.Signature.Results().Len() == 1 && w.isQueryType(callee.Signature.Results().At(0).Type()) {
+			return true, args[0]
+		}
+		return false, AVal{}
+	}
+	n := 0
+	for _, o := range fb[fnBuildKey{name, 1}] {
+		if !o.Accepted {
+			continue
+		}
+		for _, fc := range o.Calls {
+			ai := w.newInterp(hooks)
+			st0 := w.initState()
+			// the argument queries are there (not nil): objects the hooks answer for
+			var fargs []AVal
+			for _, a := range fc.Args {
+				if strings.HasPrefix(a.Tag, "q:") {
+					ob := st0.newObj(nil, nil)
+					ob.Extern = true
+					a = AVal{Kind: avPtr, Obj: ob, Field: -1, Tag: a.Tag}
+				}
+				fargs = append(fargs, a)
+			}
+			for _, fo := range ai.Exec(fc.Fn, fargs, nil, st0) {
+				if fo.Cut || fo.Panicked || fo.Ret.Kind != avFunc {
+					return false
+				}
+				var cargs []AVal
+				for range fo.Ret.Fn.Params {
+					cargs = append(cargs, AVal{Kind: avUnknown, Tag: "param"})
+				}
+				for _, co := range ai.Exec(fo.Ret.Fn, cargs, fo.Ret.Bind, fo.St) {
+					if co.Cut {
+						return false
+					}
+					if co.Panicked {
+						continue
+					}
+					if s, ok := co.Ret.Str(); !ok || s != "" {
+						return false
+					}
+					n++
+				}
+			}
+		}
+	}
+	return n > 0
 }
